@@ -25,6 +25,11 @@ def stub_floor(eng, fr, ins, st, name, argv):
     return z3.fpRoundToIntegral(z3.RTN(), argv[0])
 
 
+def stub_abs(eng, fr, ins, st, name, argv):
+    x = argv[0]
+    return z3.If(x < 0, -x, x)
+
+
 def stub_memcpy(eng, fr, ins, st, name, argv):
     eng.memcpy(fr, ins, st, argv[0], argv[1], argv[2])
     return argv[0]
@@ -64,7 +69,7 @@ def stub_alloc_exception(eng, fr, ins, st, name, argv):
 
 
 BASE_STUBS = {
-    'ceil': stub_ceil, 'floor': stub_floor, 'memcpy': stub_memcpy, 'memmove': stub_memcpy, 'memset': stub_memset,
+    'ceil': stub_ceil, 'floor': stub_floor, 'abs': stub_abs, 'labs': stub_abs, 'llabs': stub_abs, 'memcpy': stub_memcpy, 'memmove': stub_memcpy, 'memset': stub_memset,
     '_ZdlPv': stub_noop, '_ZdaPv': stub_noop, '_ZdlPvm': stub_noop,
     '__cxa_throw': stub_throw, '__cxa_allocate_exception': stub_alloc_exception, '__cxa_free_exception': stub_noop,
     '_ZSt20__throw_length_errorPKc': stub_throw, '_ZSt17__throw_bad_allocv': stub_throw, '_ZSt24__throw_out_of_range_fmtPKcz': stub_throw,
